@@ -16,7 +16,7 @@ import (
 func init() {
 	register("C08",
 		"panics and malformed results that depend on numeric facts outside the named axioms (e.g. a 32nd day after a rounding carry in NewSolarFromJulianDay, the zero-month fall-through of NewLunarFromSolar); nil results of the term searches (AX-TERMS); whether table contents are the classical ones.",
-		r08_1, r08_2, r08_4, r08_5, r08_6, r08_7, r08_8, r08_3, r04_8, r13_5, r08_9, r15_9, r08_10)
+		r08_1, r08_2, r08_4, r08_5, r08_6, r08_7, r08_8, r08_3, r04_8, r13_5, r08_9, r15_9, r08_10, r08_11)
 }
 
 // ---------- R08.1 list element types ----------
